@@ -537,7 +537,7 @@ func (v *visitor) BuiltinNode(node *ast.BuiltinNode) reflect.Type {
 			closure.NumOut() == 1 &&
 			closure.NumIn() == 1 && isInterface(closure.In(0)) {
 
-			if !isBool(closure.Out(0)) {
+			if !isBool(closure.Out(0)) || returnsNilLiteral(node.Arguments[1]) {
 				return v.error(node.Arguments[1], "closure should return boolean (got %v)", closure.Out(0).String())
 			}
 			return boolType
@@ -558,7 +558,7 @@ func (v *visitor) BuiltinNode(node *ast.BuiltinNode) reflect.Type {
 			closure.NumOut() == 1 &&
 			closure.NumIn() == 1 && isInterface(closure.In(0)) {
 
-			if !isBool(closure.Out(0)) {
+			if !isBool(closure.Out(0)) || returnsNilLiteral(node.Arguments[1]) {
 				return v.error(node.Arguments[1], "closure should return boolean (got %v)", closure.Out(0).String())
 			}
 			if isInterface(collection) {
@@ -599,7 +599,7 @@ func (v *visitor) BuiltinNode(node *ast.BuiltinNode) reflect.Type {
 		if isFunc(closure) &&
 			closure.NumOut() == 1 &&
 			closure.NumIn() == 1 && isInterface(closure.In(0)) {
-			if !isBool(closure.Out(0)) {
+			if !isBool(closure.Out(0)) || returnsNilLiteral(node.Arguments[1]) {
 				return v.error(node.Arguments[1], "closure should return boolean (got %v)", closure.Out(0).String())
 			}
 
@@ -610,6 +610,16 @@ func (v *visitor) BuiltinNode(node *ast.BuiltinNode) reflect.Type {
 	default:
 		return v.error(node, "unknown builtin %v", node.Name)
 	}
+}
+
+// returnsNilLiteral reports a closure whose body is the literal nil: its type
+// is unknown to the checker, but it is certainly not a boolean.
+func returnsNilLiteral(node ast.Node) bool {
+	if closure, ok := node.(*ast.ClosureNode); ok {
+		_, isNil := closure.Node.(*ast.NilNode)
+		return isNil
+	}
+	return false
 }
 
 func (v *visitor) ClosureNode(node *ast.ClosureNode) reflect.Type {
